@@ -144,6 +144,35 @@ def correspondence(rep, ctx):
                                       {"call": "diagram-synthetic", "names": sch["names"]}, True)
         finally:
             synthetic.cleanup(path)
+    # ---- two revisions of one synthetic dataset under ONE name, drawn in this process: each diagram is labelled with the
+    #      half-lives of the dataset it was asked about
+    import copy
+    for k in range(3 if thorough else 1):
+        sch1 = synthetic.make_scheme(view, r)
+        sch2 = copy.deepcopy(sch1)
+        sch2["hl"] = [(v, u) if v == float("inf") else (float(f"{v * 1.5:.4g}"), u) for v, u in sch1["hl"]]
+        try:
+            ds1, _, p1 = synthetic.build(rd, view, r, f"c16rev_{ctx.seed}_{k}_1", sch=sch1, name="verif_one_name")
+            ds2, _, p2 = synthetic.build(rd, view, r, f"c16rev_{ctx.seed}_{k}_2", sch=sch2, name="verif_one_name")
+        except ZeroDivisionError:
+            continue                      # the altered half-lives made two decay constants equal: not a well-formed scheme
+        try:
+            for ds_ in (ds1, ds2, ds1):
+                dv = DatasetView(ds_)
+                for i in range(dv.n):
+                    ok, msg = judge_root(rd, dv, i, None, build, nx, ds=ds_)
+                    rep.case(("revision-root", k, id(ds_), dv.names[i]))
+                    rep.dist("dataset-revisions-under-one-name")
+                    if not ok:
+                        bad += 1
+                        if bad <= 4:
+                            rep.violation("failing-input", f"diagram of {dv.names[i]} on a dataset revision (half-life of the root "
+                                          f"{ds_.hldata[i][2]!r}; another revision with the same dataset name was drawn before): {msg}",
+                                          {"call": "diagram-revisions", "names": dv.names}, True)
+                        break
+        finally:
+            synthetic.cleanup(p1)
+            synthetic.cleanup(p2)
     # ---- artificial datasets with dense branching and every metastable state letter (constructor route)
     for k in range(30 if thorough else 8):
         ds, dlines = dense_dataset(rd, r, k)
